@@ -440,3 +440,108 @@ pub fn compress_hex(src: &str) -> Option<String> {
     crate::prog::DEFAULT_SRC.with(|s| *s.borrow_mut() = src.trim().to_string());
     <ProgCircuit as Circuit>::compress().ok().map(|b| bytes_hex(&b))
 }
+
+fn hash_bytes(b: &[u8]) -> String {
+    let mut h = Hasher::new();
+    for x in b {
+        h.push_u64(*x as u64);
+    }
+    h.hex()
+}
+
+fn dec_err(e: &Error) -> String {
+    match e {
+        Error::NotEnoughBytes => "err:NotEnoughBytes".into(),
+        Error::BytesError(_) => "err:InvalidData".into(),
+        Error::PointMalformed => "err:PointMalformed".into(),
+        Error::InvalidEvalDomainSize { .. } => "err:InvalidEvalDomainSize".into(),
+        other => format!("err:other:{:?}", other).replace(' ', "_"),
+    }
+}
+
+/// prover-side codec commands (mirrors `codecAnswer` in Plonk/Driver/Crypto.lean)
+pub fn codec_line(line: &str) -> String {
+    let t: Vec<&str> = line.split_whitespace().collect();
+    match (t[0], t.len()) {
+        ("proverdec", 2) => match hex_bytes(t[1]).map(|b| Prover::try_from_bytes(&b)) {
+            Some(Ok(p)) => {
+                let b = p.to_bytes();
+                // n and commit-key length are read back from the re-encoding header
+                format!("ok h={}", hash_bytes(&b))
+            }
+            Some(Err(e)) => dec_err(&e),
+            None => "bad-request".into(),
+        },
+        ("ckraw", 2) => match hex_bytes(t[1]).map(|b| dusk_plonk::verif::commit_key_from_raw(&b)) {
+            Some(Ok((raw, n))) => format!("ok h={} n={}", hash_bytes(&raw), n),
+            Some(Err(e)) => dec_err(&e),
+            None => "bad-request".into(),
+        },
+        ("ppdec", 2) => match hex_bytes(t[1]).map(|b| PublicParameters::from_slice(&b)) {
+            Some(Ok(pp)) => {
+                let b = pp.to_var_bytes();
+                format!("ok h={} n={}", hash_bytes(&b), (b.len() - 240) / 48)
+            }
+            Some(Err(e)) => dec_err(&e),
+            None => "bad-request".into(),
+        },
+        ("evalsdec", 2) => match hex_bytes(t[1]).map(|b| dusk_plonk::verif::evaluations_roundtrip(&b)) {
+            Some(Ok((b, n))) => format!("ok h={} n={}", hash_bytes(&b), n),
+            Some(Err(e)) => dec_err(&e),
+            None => "bad-request".into(),
+        },
+        _ => {
+            let parts: Vec<&str> = line.split("||").collect();
+            let h: Vec<&str> = parts[0].split_whitespace().collect();
+            if parts.len() != 2 || h.len() != 4 || h[0] != "proveruse" {
+                return "bad-request".into();
+            }
+            let draws: Option<Vec<Vec<u8>>> = h[3].split(',').map(|d| hex_bytes(d).filter(|b| b.len() == 64)).collect();
+            let (bytes, draws) = match (hex_bytes(h[2]), draws) {
+                (Some(b), Some(d)) => (b, d),
+                _ => return "bad-request".into(),
+            };
+            let prover = match Prover::try_from_bytes(&bytes) {
+                Ok(p) => p,
+                Err(e) => return dec_err(&e),
+            };
+            let c = ProgCircuit { src: parts[1].trim().to_string() };
+            let mut rng = ScriptRng::scripted(0xabc, draws);
+            match prover.prove(&mut rng, &c) {
+                Ok((proof, pis)) => format!("proof={} pis={}", bytes_hex(&proof.to_bytes()), show_list(&pis)),
+                Err(Error::CircuitUnsatisfied) => "err:unsat".into(),
+                Err(Error::InvalidCircuitSize(_, _)) => "err:sizeerr".into(),
+                Err(Error::PolynomialDegreeTooLarge) => "err:commit:PolynomialDegreeTooLarge".into(),
+                Err(e) => format!("err:other:{:?}", e).replace(' ', "_"),
+            }
+        }
+    }
+}
+
+/// valid encodings of everything the checked decoders read, for the mutators:
+/// stdin: `<deg> <d1> <d2> <d3> <label-hex> || <prog>`; prints `prover|verifier|pp|ppraw|ckraw|proof <hex>` lines
+pub fn encodings(line: &str) -> Vec<String> {
+    let parts: Vec<&str> = line.split("||").collect();
+    let h: Vec<&str> = parts[0].split_whitespace().collect();
+    let mut out = vec![];
+    if parts.len() != 2 || h.len() != 5 {
+        return out;
+    }
+    let pp = match crate::kzg::setup(h[0], &h[1..4]) {
+        Some(Ok(pp)) => pp,
+        _ => return out,
+    };
+    let label = hex_bytes(h[4]).unwrap_or_default();
+    let c = ProgCircuit { src: parts[1].trim().to_string() };
+    if let Ok((prover, verifier)) = Compiler::compile_with_circuit(&pp, &label, &c) {
+        out.push(format!("prover {}", bytes_hex(&prover.to_bytes())));
+        out.push(format!("verifier {}", bytes_hex(&verifier.to_bytes())));
+        let mut rng = ScriptRng::seeded(5);
+        if let Ok((proof, pis)) = prover.prove(&mut rng, &c) {
+            out.push(format!("proof {} {}", bytes_hex(&proof.to_bytes()), show_list(&pis)));
+        }
+    }
+    out.push(format!("pp {}", bytes_hex(&pp.to_var_bytes())));
+    out.push(format!("ppraw {}", bytes_hex(&pp.to_raw_var_bytes())));
+    out
+}
